@@ -163,17 +163,23 @@ def soleFor (a4 a6 : Bool) (cidr : Option CIDR) (exts : List IP) (fam : Bool) : 
   exts.filter (fun e => (targetFam cidr e == fam) && isFamilyAllowed a4 a6 fam)
 
 /-- The mapping of family `fam` of a rule WITHOUT `Local` (`addExternalMappings` with
-`hasLocalAddr = false`, then `maybeMarkEmptyMapping`). -/
+`hasLocalAddr = false`, then — only `if len(rule.External) == 0` (/repo d6a4f83) — `maybeMarkEmptyMapping`).
+`exts` are the parsed externals; this point is reached only when every External string parsed
+(`tokensInvalid`, a blank string included, returns the error first), so `exts` is as long as the External list
+as given (`extIPs_length` in `IceProofs/Rewrite.lean`). A rule that NAMES externals, all of which were skipped
+because their target family is excluded by `Networks`, gets no mapping at all (it is then not registered). -/
 def catchAllMap (a4 a6 : Bool) (cidr : Option CIDR) (exts : List IP) (fam : Bool) : FamMap :=
-  if (soleFor a4 a6 cidr exts true).isEmpty && (soleFor a4 a6 cidr exts false).isEmpty then
-    -- added = false: every allowed family becomes an (empty) catch-all
+  if exts.isEmpty then
+    -- len(rule.External) == 0 (hence added = false): every allowed family becomes an (empty) catch-all
     { valid := isFamilyAllowed a4 a6 fam, catchAll := isFamilyAllowed a4 a6 fam }
   else
     { valid := !(soleFor a4 a6 cidr exts fam).isEmpty, catchAll := !(soleFor a4 a6 cidr exts fam).isEmpty,
       sole := soleFor a4 a6 cidr exts fam }
 
 /-- The mapping of family `fam` of a rule pinned by `Local = l` (`addIPMapping` per external, or the
-`ipMap[local] = nil` of `maybeMarkEmptyMapping` when there is none). -/
+`ipMap[local] = nil` of `maybeMarkEmptyMapping` when the External list is empty). With a non-empty list either the
+local family is allowed (every external is added) or it is not (nothing is added, and `maybeMarkEmptyMapping`
+would not have marked anything either): the guard of /repo d6a4f83 makes no difference here. -/
 def pinMap (a4 a6 : Bool) (l : IP) (exts : List IP) (fam : Bool) : FamMap :=
   if isFamilyAllowed a4 a6 l.v4 && (l.v4 == fam) then { valid := true, pin := some (l, exts) } else {}
 
